@@ -29,6 +29,40 @@ fn one(out: &mut Out, n: usize, k: usize, k2: usize, m: usize, kinds: &[&str]) {
     }
 }
 
+/// non-conformable operands whose would-be result size overflows: the conformability error must
+/// win (only reachable with element-less operands: one extent zero, the other huge)
+fn nonconformable_huge(out: &mut Out) {
+    use matreex::{Matrix, Order};
+    out.case("mul non-conformable operands with an overflowing would-be result");
+    out.nontrivial();
+    let big = [1usize << 32, (isize::MAX as usize) + 1, usize::MAX];
+    for &h in &big {
+        // (lhs shape, rhs shape): inner dimensions differ; nrows(lhs) * ncols(rhs) overflows or exceeds isize::MAX bytes
+        for ((ra, ca), (rb, cb)) in [((h, 0usize), (2usize, 3usize)), ((2, 3), (0, h)), ((h, 0), (1, 2)), ((h, 0), (1, 0)), ((0, 5), (0, h))] {
+            if ca == rb { continue; }
+            for (oa, ob) in [(Order::RowMajor, Order::RowMajor), (Order::ColMajor, Order::RowMajor), (Order::RowMajor, Order::ColMajor), (Order::ColMajor, Order::ColMajor)] {
+                for kind in ["multiply", "like", "op"] {
+                    let mk2 = |o: Order, r: usize, c: usize| { let mut m = Matrix::<u64>::with_default((r, c)).unwrap(); m.set_order(o); m };
+                    let (a, b) = (mk2(oa, ra, ca), mk2(ob, rb, cb));
+                    let op = format!("c08 mul {kind} 8 {} {ra} {ca} {} {rb} {cb}", ord_ch(oa), ord_ch(ob));
+                    out.announce(&op);
+                    let res: Option<Result<(usize, usize), matreex::Error>> = match kind {
+                        "multiply" => catch(|| a.multiply(b).map(|m| (m.nrows(), m.ncols()))),
+                        "like" => catch(|| a.multiplication_like_operation(b, |_, _| 0u64).map(|m| (m.nrows(), m.ncols()))),
+                        _ => catch(|| { let m = &a * &b; Ok((m.nrows(), m.ncols())) }),
+                    };
+                    let obs = match res { None => "panic".to_string(), Some(Ok((r, c))) => format!("ok {r} {c} {}", r * c), Some(Err(e)) => format!("err {}", err_name(e)) };
+                    let want = if kind == "op" { "panic" } else { "err ShapeNotConformable" };
+                    if obs != want { out.oracle_fail(&format!("{op}: non-conformable operands, expected `{want}`, implementation gave `{obs}`")); }
+                    out.count("shape:non-conformable-huge");
+                    // the operator form panics where the method errs: same decision in the model
+                    out.observe(&if kind == "op" && obs == "panic" { "err ShapeNotConformable".to_string() } else { obs });
+                }
+            }
+        }
+    }
+}
+
 pub fn run_c11(out: &mut Out, rng: &mut Rng, tier: Tier) -> String {
     ledger_reset();
     let bound = 3;
@@ -56,6 +90,7 @@ pub fn run_c11(out: &mut Out, rng: &mut Rng, tier: Tier) -> String {
         let kind = [*rng.pick(&KINDS)];
         one(out, n, k, k, m, &kind);
     }
+    nonconformable_huge(out);
     let s = snapshot();
     if s.double_drops > 0 || s.live != 0 {
         out.oracle_fail(&format!("ledger at the end of the run: {} tokens still live, {} double drops", s.live, s.double_drops));
@@ -63,7 +98,7 @@ pub fn run_c11(out: &mut Out, rng: &mut Rng, tier: Tier) -> String {
     out.exhaustive = true;
     format!(
         "exhaustive core: all shape triples (n, k, m) in {{0..={bound}}}^3 x four storage-order combinations x multiply, multiplication_like_operation (recording closure) and the four owned/borrowed * operator forms; \
-         non-conformable pairs with inner dimensions from {{0,1,2}}; {extra} random triples up to 6x6x6. Elements are symbolic tokens with destructors: products and sums are terms such as ((a'*b')+(c'*d')), \
+         non-conformable pairs with inner dimensions from {{0,1,2}}; non-conformable element-less operands whose would-be result has 2^32 .. usize::MAX rows or columns (the conformability error must win over SizeOverflow / CapacityOverflow), multiply / multiplication_like_operation / the * operator, four order combinations; {extra} random triples up to 6x6x6. Elements are symbolic tokens with destructors: products and sums are terms such as ((a'*b')+(c'*d')), \
          so factor order, k order, association and clone placement are visible. Oracle: textbook product over terms in an independent reference, result in lhs order, Ok/ShapeNotConformable/panic, closure call count and slice lengths, borrowed operands unchanged, ledger balanced. \
          A case is non-trivial when conformable with n*k*m > 1"
     )
